@@ -159,6 +159,10 @@ func genUpdate(r *rand.Rand, tg *tagger, cur verState, kind updKind, earlier ...
 			k = 1 + r.Intn(len(present)-3)
 		}
 		r.Shuffle(len(present), func(i, j int) { present[i], present[j] = present[j], present[i] })
+		if r.Intn(5) == 0 {
+			// everything goes: executions that overlap the removal run the old set or nothing, never a part
+			k = len(present)
+		}
 		u.names = append([]string{}, present[:k]...)
 		if r.Intn(3) == 0 || k == 0 {
 			u.names = append(u.names, "ghost")
